@@ -1,6 +1,6 @@
 use std::{collections::HashMap, fmt::Debug};
 
-use common_lang_types::{SelectableName, WithEmbeddedLocation};
+use common_lang_types::{EmbeddedLocation, SelectableName, WithEmbeddedLocation};
 use isograph_lang_types::{
     ArgumentKeyAndValue, NonConstantValue, ScalarSelectionDirectiveSet,
     SelectionFieldArgument, SelectionType, VariableDeclaration, VariableNameWrapper,
@@ -141,6 +141,12 @@ impl<TCompilationProfile: CompilationProfile> FlattenedDataModelSelectable<TComp
 
 /// Replaces every variable in `value`, including those nested in object and list
 /// literals, by `lookup(variable)`.
+///
+/// The result is used as (part of) a key of the merged selection map. Object entries and
+/// list items carry the location at which they were written, and that location takes part
+/// in their `Eq` and `Ord`. It is erased here, so that the same argument written at two
+/// places is one key, and so that the order of the merged selections does not depend on
+/// where in the source the selections happen to stand.
 fn substitute_variables(
     value: &NonConstantValue,
     lookup: &impl Fn(VariableNameWrapper) -> NonConstantValue,
@@ -153,6 +159,8 @@ fn substitute_variables(
                 .map(|entry| {
                     let mut entry = entry.clone();
                     entry.value.item = substitute_variables(&entry.value.item, lookup);
+                    entry.name.location = EmbeddedLocation::todo_generated();
+                    entry.value.location = EmbeddedLocation::todo_generated();
                     entry
                 })
                 .collect(),
@@ -163,6 +171,7 @@ fn substitute_variables(
                 .map(|item| {
                     let mut item = item.clone();
                     item.item = substitute_variables(&item.item, lookup);
+                    item.location = EmbeddedLocation::todo_generated();
                     item
                 })
                 .collect(),
